@@ -22,6 +22,8 @@ def run(ck):
     ck.trusted += ['Coq 8.16.1 kernel + vm_compute', 'float32 -> Q printing']
     ck.assumptions += ['float32 decode vs exact model tolerance 3e-5', 'AUC runs only where every leaf validation set has every class (else skipped)']
     ck.check_theorems()
+    from harness import predops
+    predops.check_translation(ck)
     from harness import convops
     convops.check_translation(ck)
     rng = np.random.default_rng(ck.seed + 1212)
